@@ -9,6 +9,7 @@ import Driver.Conf
 import Driver.CCache
 import Driver.Asn1
 import Driver.ApReq
+import Driver.Spnego
 
 open Driver
 
@@ -28,6 +29,7 @@ def dispatch (line : String) : String :=
       else if op.startsWith "cc." then CCache.handle op args
       else if op.startsWith "asn1." then Asn1.handle op args
       else if op.startsWith "ap." then ApReq.handle op args
+      else if op.startsWith "sp." then Spnego.handle op args
       else none
     match r with
     | some s => s
